@@ -3,7 +3,7 @@ import os
 import vlib, e2e
 from vlib import hx, unhx, case_line, show
 
-THEOREMS = ["C15_list", "C15_effective_is_suffix", "C15_last", "C15_kv", "C15_dropins", "C15_pinned_refuted"]
+THEOREMS = ["C15_list", "C15_effective_is_suffix", "C15_last", "C15_kv", "C15_dropins", "C15_pinned_refuted", "C15_merged_history"]
 
 # key -> (kind, candidate values)
 KEYS = {
@@ -125,7 +125,8 @@ def canon_exec(line):
         out += [x for p in sorted(run_) for x in p]
     # object names derived from the file stem differ between the two files that are compared (h<j> / r<j>)
     import re
-    return [re.sub(r"^systemd-[hr](\d*)$", "systemd-<stem>", a) for a in out]
+    # (a template instance's default container name is systemd-%p_%i where a plain unit's is systemd-%N)
+    return [re.sub(r"^systemd-[hr](\d*)(@i)?(-infra)?$", r"systemd-<stem>\3", "systemd-%N" if a == "systemd-%p_%i" else a) for a in out]
 
 
 def lookup_level(ctx):
@@ -261,14 +262,17 @@ def command_level(ctx):
         files, links = {}, []
         for j, (key, hist, main, drops, ref) in enumerate(sample):
             typ = unit_of(key)[0]
-            files["units/h%d.%s" % (j, typ)] = main
+            # every fourth unit is a template INSTANCE whose drop-ins live only in the template's directory (h<j>@.<type>.d)
+            inst = "@i" if j % 4 == 1 else ""
+            ddir = "h%d@.%s.d" % (j, typ) if inst else "h%d.%s.d" % (j, typ)
+            files["units/h%d%s.%s" % (j, inst, typ)] = main
             for d, txt in enumerate(drops):
                 if (j + d) % 3 == 0:
                     # the drop-in is a symbolic link to a file kept elsewhere (a common way to share one drop-in between units)
                     files["shared/h%d-%02d.conf" % (j, d)] = txt
-                    links.append(("units/h%d.%s.d/%02d-x.conf" % (j, typ, d), "../../shared/h%d-%02d.conf" % (j, d)))
+                    links.append(("units/%s/%02d-x.conf" % (ddir, d), "../../shared/h%d-%02d.conf" % (j, d)))
                 else:
-                    files["units/h%d.%s.d/%02d-x.conf" % (j, typ, d)] = txt
+                    files["units/%s/%02d-x.conf" % (ddir, d)] = txt
             files["units/r%d.%s" % (j, typ)] = ref
         e2e.make_tree(box.root, files)
         for lp, target in links:
@@ -281,7 +285,7 @@ def command_level(ctx):
             ctx.evaluations += 1
             ctx.count("e2e_dropins")
             suf = {"container": "", "kube": "", "volume": "-volume", "network": "-network", "pod": "-pod", "image": "-image", "build": "-build"}[unit_of(key)[0]]
-            ta, tb = svcs.get(box.path("out", "h%d%s.service" % (j, suf))), svcs.get(box.path("out", "r%d%s.service" % (j, suf)))
+            ta, tb = svcs.get(box.path("out", "h%d%s%s.service" % (j, "@i" if j % 4 == 1 else "", suf))), svcs.get(box.path("out", "r%d%s.service" % (j, suf)))
             def ex(t):
                 if t is None:
                     return None
